@@ -67,6 +67,13 @@ var e2Assumptions = []string{
 }
 
 var props = map[string]prop{
+	"C17": {
+		Parts:          []part{{Engine: "E2", Pkg: "sess", Profile: "C17", QuickRuns: 3000, QuickBudgetS: 60, ThoroughRuns: 150000, ThoroughBudgetS: 1200}},
+		Rule:           "one case = one seeded contract life between a renter task and a host task over the simulated connection (real RHP4 request objects and codec, tape-chosen chunking, stalls and truncation): formation, then 3-10 operations out of {append (incl. exactly the free capacity, large batches), free, sector roots, fund accounts (fraction / exactly the remaining allowance / one hasting more), replenish, renew, refresh with full and with partial rollover, expired prices, badly signed prices} with a tape-drawn price table (zero, tiny and large prices), allowances and collateral at, below and above what is left. Both parties run the real Validate methods, constructors and cost functions; the host funds, signs, validates (ValidateV2Transaction) and mines every resulting transaction on a private chain running the real consensus code. Oracle: big-integer accounting from the property's identities (total kept; renter charged exactly the reported usage; missed host value lowered by exactly the reported collateral and never raised; total collateral untouched; failure exactly when funds do not cover the cost; renewal/refresh split the old value exactly, roll over no more than the new contract costs, and reported costs + rollover = new contract + tax + fee), acceptance by consensus, and agreement of the two parties (host signature verifies against the renter's own result). A v1 variant drives rhp/v2 and rhp/v3 formation, payment revisions and renewals through ValidateTransaction. Non-trivial = at least one constructed transaction was mined.",
+		Assumptions:    e2Assumptions,
+		Components:     e2Components,
+		ExpectCounters: []string{"c17.op.form", "c17.op.append", "c17.op.free", "c17.op.roots", "c17.op.fund", "c17.op.fund-exact", "c17.op.fund-over", "c17.op.replenish", "c17.op.renew", "c17.op.refresh-full", "c17.op.refresh-partial", "c17.op.expired-prices", "c17.revision-checked", "c17.renewal-checked", "c17.insufficient", "c17.rejected-by-validate", "c17.mined", "c17.v1-validated", "fault.truncate-close", "fault.stall"},
+	},
 	"C16": {
 		Parts: []part{
 			{Engine: "E2", Pkg: "sess", Profile: "C16", QuickRuns: 1500, QuickBudgetS: 60, ThoroughRuns: 60000, ThoroughBudgetS: 1200},
